@@ -93,7 +93,7 @@ func MonFetch(prog *Program, res *RunResult, cfg RunCfg, init State, removed map
 	}
 	for _, e := range res.Events {
 		switch e.Kind {
-		case "setrule", "exec", "inc", "add", "complete":
+		case "exec", "inc", "add", "complete":
 			vs = append(vs, Violation{"FetchExact", 0, "", "FetchMatchingRules produced an action-side event: " + e.String()})
 		case "method":
 			if e.Key == "Mark" || e.Key == "Poke" {
